@@ -1,4 +1,4 @@
-import BoltonsVerif.C02.Facts
+import BoltonsVerif.C02.Extra
 /-
 C02 — property theorems for the LRI / LRU model (statements, short derivations from
 `Proofs` / `Refine` / `Facts`, non-vacuity examples).
@@ -308,6 +308,20 @@ theorem readers_pure (c : Cache K V) (k : K) (o : Arg K V) :
 theorem ne_is_not_eq (c : Cache K V) (o : Arg K V) :
     (step c (.ne o)).2 = .bool (!c.eqArg o) ∧ (step c (.eq o)).2 = .bool (c.eqArg o) ∧
     c.eqArg .self = true := ⟨rfl, rfl, rfl⟩
+
+/-- `==` against a mapping answers whether the two mappings are equal (same keys, same values) -/
+theorem eq_decides_mapping_equality {c : Cache K V} (hi : Inv c) (o : List (K × V)) (ho : (keys o).Nodup) :
+    (step c (.eq (.pairs o))).2 = .bool true ↔ ∀ k, lookup k c.d = lookup k o := by
+  simp only [step, Cache.eqArg, Out.bool.injEq]
+  exact dictEq_iff hi.sync.nd ho
+
+/-- same eviction order, observably: whatever is done to the copy and to the original from now
+    on, both return the same results and hold the same contents in the same orders -/
+theorem copy_behaves_like_source (c : Cache K V) (ops : List (Op K V)) :
+    (outs c.copied ops).map Out.shape = (outs c ops).map Out.shape ∧
+    (run c.copied ops).d = (run c ops).d ∧ (run c.copied ops).ring = (run c ops).ring := by
+  have := (SameCore.copied c).run ops
+  exact ⟨this.2, this.1.d, this.1.ring⟩
 
 /-! ### non-vacuity: concrete histories with evictions (keys, values : Nat) -/
 
